@@ -171,7 +171,9 @@ def build_case(cid, rng, feature):
             form = rng.choice(forms)
             bv = rng.random() < 0.15
             anyval = anyval or bv
-            L.append("    pub " + make_fn(rng, "f%d" % i, bs, bv, form))
+            # (a fifth of the module fns sit behind an *enabled* cfg gate: they exist, and so do their bounds)
+            gate = rng.choice(["#[cfg(all())] ", "#[cfg(not(any()))] ", "#[cfg_attr(any(), cfg(any()))] ", "/// docs\n    #[cfg(all())]\n    "]) if rng.random() < 0.2 else ""
+            L.append("    " + gate + "pub " + make_fn(rng, "f%d" % i, bs, bv, form))
             declared += bs
             desc.append((form, bs, bv))
         L.append("}")
